@@ -30,15 +30,15 @@ def tablesOf (g : Grammar) (start eof : Nat) (prefixMode : Bool) (fuel : Nat) : 
 theorem C13_sound_full (g : Grammar) (start eof : Nat) (sfuel fuel : Nat) (w : List Nat) (v : Tree)
     (hg : g.Closed) (hs : start < g.numNT) (he : eof ∉ g.terminals) (hw : eof ∉ w)
     (h : lrParseTree (tablesOf g start eof false sfuel) fuel (w ++ [eof]) = .accept v) :
-    v.Valid g ∧ v.root = .n start ∧ v.yield = w := by
-  sorry
+    v.Valid g ∧ v.root = .n start ∧ v.yield = w :=
+  LRSound.sound_full g start eof sfuel fuel w v hg hs hw h
 
 /-- Soundness, prefix mode: the accepted value is a valid tree whose yield is a prefix of the input -/
 theorem C13_sound_prefix (g : Grammar) (start eof : Nat) (sfuel fuel : Nat) (inp : List Nat) (v : Tree)
     (hg : g.Closed) (hs : start < g.numNT) (he : eof ∉ g.terminals)
     (h : lrParseTree (tablesOf g start eof true sfuel) fuel inp = .accept v) :
-    v.Valid g ∧ v.root = .n start ∧ v.yield <+: inp := by
-  sorry
+    v.Valid g ∧ v.root = .n start ∧ v.yield <+: inp :=
+  LRSound.sound_prefix g start eof sfuel fuel inp v hg hs h
 
 /-- the value returned for arbitrary semantic actions is the fold of that tree
     (rule actions applied to the values of the right-hand side, last symbol first) -/
@@ -49,15 +49,16 @@ theorem C13_value_is_fold {V : Type} (T : Tables) (leaf : Nat → V) (act : Nat 
        | .accept t => .accept (t.fold leaf act)
        | .reject => .reject
        | .stuck => .stuck
-       | .fuelOut => .fuelOut) := by
-  sorry
+       | .fuelOut => .fuelOut) :=
+  LRSound.value_is_fold T leaf act fuel inp
 
 /-- hence: what is not in the language is never accepted -/
 theorem C13_reject (g : Grammar) (start eof : Nat) (sfuel fuel : Nat) (w : List Nat)
     (hg : g.Closed) (hs : start < g.numNT) (he : eof ∉ g.terminals) (hw : eof ∉ w)
     (hn : ¬ Derives g (.n start) w) :
     ∀ v, lrParseTree (tablesOf g start eof false sfuel) fuel (w ++ [eof]) ≠ .accept v := by
-  sorry
+  intro v h
+  exact hn ⟨v, LRSound.sound_full g start eof sfuel fuel w v hg hs hw h⟩
 
 /-- Completeness for conflict-free tables (not yet proved; kept visible at full strength) -/
 def C13_complete_statement : Prop :=
